@@ -287,11 +287,12 @@ type cliOpts struct {
 }
 
 type testClient struct {
-	C    *client.Conn
-	Cfg  *client.Config
-	S    *ircsim.Session
-	sync sync.Map // nonce -> chan struct{}
-	seq  atomic.Int64
+	CreatedLo, CreatedHi time.Time // client.Client(cfg) ran between these instants
+	C                    *client.Conn
+	Cfg                  *client.Config
+	S                    *ircsim.Session
+	sync                 sync.Map // nonce -> chan struct{}
+	seq                  atomic.Int64
 }
 
 func newTestClient(o cliOpts) *testClient {
@@ -310,11 +311,13 @@ func newTestClient(o cliOpts) *testClient {
 	if o.Configure != nil {
 		o.Configure(cfg)
 	}
+	createdLo := time.Now()
 	c := client.Client(cfg)
+	createdHi := time.Now()
 	if o.Tracking {
 		c.EnableStateTracking()
 	}
-	tc := &testClient{C: c, Cfg: cfg, S: s}
+	tc := &testClient{C: c, Cfg: cfg, S: s, CreatedLo: createdLo, CreatedHi: createdHi}
 	if !o.NoSyncHook {
 		c.HandleFunc("VSYNC", func(_ *client.Conn, l *client.Line) {
 			if len(l.Args) == 0 {
